@@ -39,8 +39,20 @@ def run(scn, seed, line_p=0.05, stick=0.5, decisions=None, rpc_timeout=2):
         seed, rt_kw=dict(line_p=0.0, stick=stick, decisions=decisions), timeout=1,
         broker_cfg=bcfg or None, heartbeat=scn.get('heartbeat', 0))
     br.strict_close = True
-    st = {'chans': {}}
+    st = {'chans': {}, 'sinks': {}, 'need': {}}
     nack = []
+
+    class Done(Exception):
+        pass
+
+    def sink_cb(c):
+        def cb(message):
+            lst = st['sinks'].setdefault(c, [])
+            lst.append(message)
+            need = st['need'].get(c)
+            if need is not None and len(lst) >= need:
+                raise Done()
+        return cb
 
     def published(b, ch, m, h, body):
         if ch not in st.get('confirming', ()):
@@ -67,7 +79,7 @@ def run(scn, seed, line_p=0.05, stick=0.5, decisions=None, rpc_timeout=2):
             st['chans'][c].confirm_deliveries()
             st['confirming'].add(c)
         for c, tag in scn.get('consumers', []):
-            st['chans'][c].basic.consume(lambda m: None, 'q', consumer_tag=tag)
+            st['chans'][c].basic.consume(sink_cb(c), 'q', consumer_tag=tag)
     if scn.get('no_setup'):
         st['confirming'] = set()
         if scn.get('eof_on_connect'):
@@ -168,26 +180,16 @@ def run(scn, seed, line_p=0.05, stick=0.5, decisions=None, rpc_timeout=2):
             return 'CRNone'
         if k == 'drain':
             ch = st['chans'][c]
-            got = []
-
-            class Done(Exception):
-                pass
-
-            def cb(message):
-                got.append(message)
-                if len(got) >= op[1]:
-                    raise Done()
-            for t in list(ch._consumer_callbacks):
-                ch._consumer_callbacks[t] = cb
+            got = st['sinks'].setdefault(c, [])
+            st['need'][c] = len(got) + op[1]
             er = 'None'
             try:
                 # as start_consuming does: keep processing until the channel closes
-                while not ch.is_closed:
+                while not ch.is_closed and len(got) < st['need'][c]:
                     ch.process_data_events()
             except Done:
                 pass
             except crt.TaskKilled:
-                drained[(c, op[1])] = list(got)
                 raise
             except Exception as why:
                 ec = err_coq(why)
@@ -195,6 +197,8 @@ def run(scn, seed, line_p=0.05, stick=0.5, decisions=None, rpc_timeout=2):
                     st.setdefault('other', []).append(repr(why))
                     return 'CROther'
                 er = '(Some %s)' % ec
+            finally:
+                st['need'][c] = None
             return '(CRBodies %s %s)' % (coq_list([coq_bytes(m._body) for m in got]), er)
         if k == 'sync_timer':
             # wait until the instant the next heartbeat timer is due
@@ -219,7 +223,7 @@ def run(scn, seed, line_p=0.05, stick=0.5, decisions=None, rpc_timeout=2):
             ch.basic.ack(1)
             return 'CRNone'
         if k == 'consume':
-            r = ch.basic.consume(lambda m: None, 'q', consumer_tag=op[1].decode('latin-1'))
+            r = ch.basic.consume(sink_cb(c), 'q', consumer_tag=op[1].decode('latin-1'))
             return '(CRTag %s)' % coq_bytes(r.encode('latin-1') if isinstance(r, str) else r)
         if k == 'cancel':
             ch.basic.cancel(op[1].decode('latin-1'))
@@ -231,7 +235,6 @@ def run(scn, seed, line_p=0.05, stick=0.5, decisions=None, rpc_timeout=2):
 
     order = []
     extra = {}
-    drained = {}
 
     def at_return():
         from harness.chanrt import STATES as _ST
